@@ -43,8 +43,8 @@ func c16Body(e *Env) {
 		if !c.Explicit {
 			c.Cfg.NTx = 2 + rng.Intn(6)
 			c.Cfg.NoYieldIO = true
-			if rng.Intn(5) == 0 {
-				c.Cfg.TxidBase = []uint64{^uint64(0) - 2, 1<<63 - 3, ^uint64(0) - 5, 1<<63 - 2}[rng.Intn(4)]
+			if rng.Intn(3) == 0 {
+				c.Cfg.TxidBase = []uint64{^uint64(0) - 2, 1<<63 - 3, ^uint64(0) - 5, 1<<63 - 2, ^uint64(0) - 1, 1<<63 - 1}[rng.Intn(6)]
 			}
 			r.Cfg = *c.Cfg
 			r.D.YieldIO = false
@@ -203,6 +203,8 @@ func c16Body(e *Env) {
 		return
 	}
 	drng := e.Rng("damage")
+	// both headers intact: the newer commit wins (also across txid wrap-around)
+	eval(&Damage{Slot: 0, Kind: "outside", Off: headerSize, Bit: 0, Len: -1})
 	for slot := 0; slot < 2 && !e.Failed(); slot++ {
 		for off := 0; off < headerSize; off++ {
 			for bit := 0; bit < 8; bit++ {
@@ -252,7 +254,9 @@ func applyDamage(img, prev []byte, ps int, dm *Damage) {
 	h := img[base : base+ps]
 	switch dm.Kind {
 	case "bitflip", "outside":
-		h[dm.Off] ^= 1 << uint(dm.Bit)
+		if dm.Len >= 0 { // Len -1: no damage at all (both headers intact)
+			h[dm.Off] ^= 1 << uint(dm.Bit)
+		}
 	case "tear_over_old":
 		if len(prev) >= base+headerSize {
 			copy(h[dm.Len:headerSize], prev[base+dm.Len:base+headerSize])
